@@ -727,3 +727,9 @@ func (w *World) NextTx() ([]byte, string, *TxSpec) {
 
 var _ = json.Marshal
 var _ crypto.PublicKey
+
+// ParamOwner returns the actor that currently owns a parameter according to the stored ACL (nil if none).
+func (w *World) ParamOwner(key string) *Actor { return w.currentOwner(w.View(), key) }
+
+// JSONOf is the amino-JSON encoding used for parameter values.
+func JSONOf(x interface{}) []byte { return jsonOf(x) }
